@@ -1,6 +1,7 @@
 //! e57h — conformance harness binding the TLA+ specification in /verif/spec to cry-inc/e57.
 //! It drives the real code and records what happened; verdicts are TLC's.
 mod c07;
+mod c17;
 mod conv;
 mod dev;
 mod page;
@@ -27,6 +28,7 @@ fn main() {
     let r = match args[1].as_str() {
         "page-replay-w" => page::replay_w(&arg(&args, "--edges").expect("--edges"), &out),
         "c07-run" => c07::run(&arg(&args, "--progs").expect("--progs"), &arg(&args, "--mode").unwrap_or_else(|| "sample".into()), seed, argn(&args, "--samples", 100) as usize, &out),
+        "c17-run" => c17::run(&arg(&args, "--progs").expect("--progs"), argn(&args, "--depth", 2) as usize, &out),
         "e57-run" => prog::run_programs(&arg(&args, "--progs").expect("--progs"), &out),
         "page-replay-r" => page::replay_r(&arg(&args, "--edges").expect("--edges"), &out),
         "page-trace-case-r" => page::trace_case_r(&arg(&args, "--case").expect("--case"), &out),
